@@ -142,15 +142,16 @@ def classify_loss(want, got):
     return "other"
 
 
-def check_dataset(t: Tally, defn, doc, files, stream_pkts, use_raw, case, string_encoded):
+def check_dataset(t: Tally, defn, doc, files, stream_pkts, use_raw, case, string_encoded, gen_kwargs=None, defn_arg=None):
     from space_packet_parser import xarr
+    gen_kwargs = gen_kwargs or {}
     # expected rows from the library's own generator, file by file in the given order
     exp = {}
     with observed_warnings():
         try:
             for f in files:
                 with open(f, "rb") as fh:
-                    for p in defn.packet_generator(fh):
+                    for p in defn.packet_generator(fh, **gen_kwargs):
                         exp.setdefault(p.raw_data.apid, []).append(p)
         except Exception as e:  # noqa: BLE001
             t.violation({"kind": "harness: generator raised"}, case, observed=repr(e)[:200])
@@ -163,7 +164,7 @@ def check_dataset(t: Tally, defn, doc, files, stream_pkts, use_raw, case, string
                 arg = files[0] if form == 0 else pathlib.Path(files[0])
             else:
                 arg = [list(files), tuple(files), (f for f in files), iter([pathlib.Path(f) for f in files]), map(str, files)][form]
-            ds = xarr.create_dataset(arg, defn, use_raw_values=use_raw)
+            ds = xarr.create_dataset(arg, defn if defn_arg is None else defn_arg, use_raw_values=use_raw, **gen_kwargs)
         except Exception as e:  # noqa: BLE001
             t.evals += 1
             t.outcomes["create_dataset-raised"] += 1
@@ -269,6 +270,26 @@ def _task_one(task):
                         use_raw = (sum(seq) + n) % 2 == 1
                         check_dataset(t, defn, doc, files, pk, use_raw,
                                       {**base_case, "seq": list(seq), "file_list": lab, "use_raw_values": use_raw, "packets": [p.hex() for p in pk]}, string_encoded)
+            # (d) keyword arguments handed through to the packet generator, and the definition given as a file path
+            from mc.spec import render_xml
+            import pathlib
+            xml_path = os.path.join(work, f"c18_{os.getpid()}_def.xml")
+            with open(xml_path, "wb") as f:
+                f.write(render_xml(doc))
+            mix = [x for pair in zip(a_pkts, (b_pkts * len(a_pkts))[:len(a_pkts)]) for x in pair]
+            for use_raw in (False, True):
+                recs = [bytes([0xE0 + (i % 16)] * 4) + p for i, p in enumerate(mix)]
+                check_dataset(t, defn, doc, [write(recs)], mix, use_raw, {**base_case, "variant": "skip_header_bytes=4", "use_raw_values": use_raw,
+                                                                          "packets": [p.hex() for p in mix][:6]}, string_encoded, gen_kwargs={"skip_header_bytes": 4})
+                longer = [framing.mk_packet(p[6:] + b"\x00\x00", apid=1, seqcount=900 + i) for i, p in enumerate(a_pkts[:2])]
+                withbad = a_pkts[:1] + longer[:1] + b_pkts[:1] + a_pkts[-1:] + longer[1:]
+                for pb in (False, True):
+                    check_dataset(t, defn, doc, [write(withbad)], withbad, use_raw, {**base_case, "variant": f"parse_bad_pkts={pb}", "use_raw_values": use_raw,
+                                                                                     "packets": [p.hex() for p in withbad][:6]}, string_encoded, gen_kwargs={"parse_bad_pkts": pb})
+                check_dataset(t, defn, doc, [write(mix)], mix, use_raw, {**base_case, "variant": "definition given as a path", "use_raw_values": use_raw,
+                                                                         "packets": [p.hex() for p in mix][:6]}, string_encoded,
+                              defn_arg=xml_path if use_raw else pathlib.Path(xml_path))
+            os.unlink(xml_path)
             # (c) a polymorphic APID must be rejected with ValueError
             from space_packet_parser import xarr
             poly = [framing.mk_packet(bytes([0, 9]), apid=3), framing.mk_packet(bytes([1, 9]), apid=3, seqcount=1)]
@@ -306,7 +327,8 @@ def run(ctx):
         "exhaustive": True,
         "bound": (f"{len(ks)} definitions (each palette field kind on APID 1 + a boundary set of signed/unsigned widths 1..64; a fixed layout on APID 2; a polymorphic APID 3) x "
                   "8 pattern payloads + 12 dtype-stress payloads (leading/trailing/embedded NUL, spaces, non-ASCII, tiny/huge MIL-STD-1750A, integer extremes) singly and "
-                  f"together x use_raw_values {{F,T}}; every APID interleaving of <= {3 if ctx.quick else 4} packets over a 4-packet family x file lists [f1], [f1,f2], [f2,f1], [f1+stray bytes,f2], [f1+incomplete packet,f2]"),
+                  f"together x use_raw_values {{F,T}}; every APID interleaving of <= {3 if ctx.quick else 4} packets over a 4-packet family x file lists [f1], [f1,f2], [f2,f1], [f1+stray bytes,f2], [f1+incomplete packet,f2]; "
+                  "generator keyword arguments handed through (skip_header_bytes=4 on prefixed records, parse_bad_pkts in {F,T} with over-long packets in the stream) and the definition given as a str / Path"),
         "rule": "one evaluation = one create_dataset call compared cell by cell with packet_generator's items; distinct non-trivial = distinct value packets per field kind",
     }
     return {"level": LEVEL, "tally": tally, "coverage": coverage,
